@@ -2,12 +2,12 @@
    sumbool become OCaml's; nat, N, positive stay the extracted inductive types. *)
 From Coq Require Import ExtrOcamlBasic.
 From LexVerif Require Import Base CharClass RangeMap Regex Spec SpecExec LexSpec Nfa Dfa NfaToDfa
-     Codegen Runtime Driver SpecDef Harness CharGen Instance Parser NfaSem ClosedChecker.
+     Codegen Runtime Driver SpecDef Harness CharGen Instance Parser NfaSem ClosedChecker RulesetSemProofs.
 From LexVerif.Gen Require Import GenTables GenConsts GenOracle.
 Extraction Language OCaml.
 Extraction "lexmodel.ml"
-  model_compile model_new model_next spec_rulesets spec_wf spec_new spec_next_inst
+  model_hyps model_certs model_compile model_new model_next spec_rulesets spec_wf spec_new spec_next_inst
   rm_insert rm_insert_ranges rm_remove_ranges model_r2m model_generate model_generate_table
   builtin_table oracle_table agree_on_scalars first_difference pairs_wf compiled_member
   binary_search guard_chain in_pairs width_of dmatch
-  parse_regex print_re dfa_closed_b nfa_targets_ok_b nfa_ranges_wf_b dfa_wf_b flags_sound_b.
+  parse_regex print_re dfa_closed_b nfa_targets_ok_b nfa_ranges_wf_b dfa_wf_b flags_sound_b dfa_shape_ok_b.
